@@ -35,11 +35,13 @@ MODEL_TARGETS = ["PydraModel.Sched.Model", "PydraModel.DriverUtil"]
 
 
 def spec(case, obs):
+    """the gated verdict: taken from the bodies' own start/end log, whatever else happened in the run (also when the
+    run diverged from the model, ended with an exception, or the schedule player gave up)"""
+    k = case.get("k")
+    if k is not None and (obs.get("maxopen") or 0) > k:
+        return False, f"{obs['maxopen']} bodies open at once with max_concurrent={k}"
     if obs.get("outcome") in ("HANG", "DEVICE-TIMEOUT", "LIVELOCK"):
         return False, f"submission did not end: {obs.get('outcome')} {obs.get('msg', '')[:200]}"
-    k = case.get("k")
-    if k is not None and obs.get("maxopen", 0) > k:
-        return False, f"{obs['maxopen']} bodies open at once with max_concurrent={k}"
     return True, ""
 
 
@@ -78,6 +80,26 @@ def gen_cases(rng, n, nmax):
 
 
 # witness of the repaired defect D11 (4 independent jobs, k = 2: must now stay within the limit) and an 8-job version
+def tail_cases(rng, n):
+    """the end of the queue: k in {2, 3}, a few more jobs than k, every dispatched body is opened at once and exactly one
+    future completes per iteration ('greedy'): when r <= k jobs are still queued while k - 1 bodies execute, r + running > k"""
+    cases = []
+    for _ in range(n):
+        k = rng.choice([2, 3])
+        nj = k + rng.choice([1, 2, 2, 3])
+        kind = rng.choice(["indep", "split", "chain+indep"])
+        names = [chr(ord("a") + i) for i in range(10)]
+        if kind == "indep":
+            c = {"nodes": [_n(names[i]) for i in range(nj)], "keep_state": []}
+        elif kind == "split":
+            c = {"nodes": [_n("a", split=list(range(nj)))], "keep_state": []}
+        else:
+            c = {"nodes": [_n("n0"), _n("n1", ["n0"])] + [_n(names[i]) for i in range(nj - 2)], "keep_state": []}
+        c.update({"k": k, "fail": [], "n_procs": sched.njobs(c), "policy": {"seed": rng.randrange(10**6), "style": "greedy"}})
+        cases.append(c)
+    return cases
+
+
 # witnesses of repaired findings and hand-made schedules: corpus/sched/C16.jsonl
 CORPUS = sched.load_corpus("C16")
 
@@ -85,14 +107,15 @@ CORPUS = sched.load_corpus("C16")
 def correspondence(ctx):
     core.assert_repo_loaded()
     # corpus (D11 witness) first, then generated cases, in one batch
-    res = sched.explore(ctx, [dict(c) for c in CORPUS] + gen_cases(ctx.rng, ctx.pick(12, 100), ctx.pick(6, 10)), spec,
-                        "C16 concurrency limit")
+    res = sched.explore(ctx, [dict(c) for c in CORPUS] + tail_cases(ctx.rng, ctx.pick(3, 40))
+                        + gen_cases(ctx.rng, ctx.pick(9, 100), ctx.pick(6, 10)), spec, "C16 concurrency limit")
     ctx.extra["max_open_seen"] = max([o.get("maxopen") or 0 for (_, o, _, _, _) in res] + [0])
     ctx.extra["cases_at_limit"] = sum(1 for (c, o, _, _, _) in res if c.get("k") is not None and o.get("maxopen") == c["k"])
 
 
 def search(ctx):
-    sched.explore(ctx, gen_cases(ctx.rng, ctx.pick(40, 300), 10), spec, "C16 search")
+    sched.explore(ctx, [dict(c) for c in CORPUS] + tail_cases(ctx.rng, ctx.pick(12, 80)) + gen_cases(ctx.rng, ctx.pick(30, 250), 10),
+                  spec, "C16 search")
 
 
 def replay(ctx, rec):
